@@ -161,3 +161,15 @@ CHECKS["C18"] = dict(
             dict(pkg="./cmd/plugins/memory-qos", run="TestVerifC18", shards=1),
             dict(pkg="./cmd/plugins/memtierd", run="TestVerifC18", shards=1)],
 )
+
+CHECKS["C19"] = dict(
+    level="exploration", engine="inputx",
+    technique="exhaustive enumeration of an expression grammar x subjects against an independent reference evaluator; exhaustive enumeration of ordered balloon-type lists x container kinds on a real balloons resource manager",
+    rule="expressions: 39 keys (plain, nested pod/labels/tags, joint keys with default/custom/invalid separators, invalid keys) x 12 operators x value lists of length 0-2 (0-3 thorough) over 8 atoms x 5 subjects (pods and containers); "
+         "clauses: negation pairs complementary, joint-key values, validated expressions resolve without error, documented operator semantics, affinity weights clamped; "
+         "balloon-type selection: all permutations of user types (+ explicit reserved/default placement) x container kinds; non-trivial = accepted expressions / containers placed",
+    bound=dict(quick="~170k expression evaluations; 6 type orders x 12 container kinds", thorough="~1M expression evaluations; 24 type orders x 12 container kinds"),
+    assumptions=["the documentation does not describe the '*' wildcard accepted by Equals/In; inputs with a '*' value are judged for negation symmetry only"],
+    stages=[dict(pkg="./pkg/resmgr/cache", run="TestVerifC19", shards=1),
+            dict(pkg="./pkg/resmgr", run="TestVerifC19Balloons", shards=8)],
+)
